@@ -50,9 +50,12 @@ const (
 	BiInput  = "\u0987\u09A8\u09AA\u09C1\u099F" // ইনপুট
 )
 
-// Builtins lists the 17 built-in names (barred as declared names).
+// BiInputLatin is the Latin alias of ইনপুট (reserved by the parser).
+const BiInputLatin = "input"
+
+// Builtins lists the built-in names (barred as declared names).
 var Builtins = []string{BiClock, BiLen, BiAppend, BiRemove, BiDelete, BiKeys, BiValues, BiAbs, BiSqrt,
-	BiPow, BiSin, BiCos, BiTan, BiMin, BiMax, BiRound, BiInput}
+	BiPow, BiSin, BiCos, BiTan, BiMin, BiMax, BiRound, BiInput, BiInputLatin}
 
 func IsBuiltin(name string) bool {
 	for _, b := range Builtins {
